@@ -67,7 +67,7 @@ def excel_fs(chk, P, rule):
     tab = I.instantiate(cls, [ListV([], "list"), fs_model(I, P), W.nsym("cutoff"), W.nsym("nr"), W.nsym("cutoff_rho"), W.nsym("nrho")], {}, None)
     wb = I.getattr(tab, "workbook")
     ws = wb.obj.sheet("EAM-Density")
-    site = cls.lookup("_add_eam_density").site()
+    site = cls.site_of("_add_eam_density")
     if ws is None:
         raise AnalysisError("no EAM-Density sheet produced")
     heads = {}
@@ -108,7 +108,7 @@ def parser_key(chk, P, rule):
     inst = InstV(ci)
     W.run_method(I, inst, "_parse_eam_fs_density_line", [Const("A->B"), Const("as.zero")])
     f = captured.get("func")
-    site = ci.lookup("_parse_eam_fs_density_line").site()
+    site = ci.site_of("_parse_eam_fs_density_line")
     if f is None:
         raise AnalysisError("FS density line parser no longer passes a key function")
     for key, (fr, to) in (("Al->Fe", ("Al", "Fe")), (" Fe -> Al ", ("Fe", "Al")), ("A->B", ("A", "B"))):
@@ -145,7 +145,7 @@ def builder(chk, P, rule):
     pairs = [("Fe", "Al"), ("Al", "Fe"), ("Al", "Al")]
     rows = _fs_rows(P, I, pairs)
     d = W.run_method(I, b, "_density_to_potential_form_dict", [rows, PyObjV(_PFB())])
-    site = ci.lookup("_density_to_potential_form_dict").site()
+    site = ci.site_of("_density_to_potential_form_dict")
     if not isinstance(d, DictV):
         raise AnalysisError("FS density dictionary is not a dict: %r" % (d,))
     for a, bb in pairs:
@@ -180,11 +180,11 @@ def builder(chk, P, rule):
         pot = W.run_method(I, b, "_create_eam_potential", [Const(s), embed, d])
         got = pot.attrs.get("electronDensityFunction") if isinstance(pot, InstV) else None
         want = d.items[Const(s).key()][1]
-        chk.ob(rule, "EAMPotential(%s) receives density[%s]" % (s, s), got is want, site=ci.lookup("_create_eam_potential").site(),
+        chk.ob(rule, "EAMPotential(%s) receives density[%s]" % (s, s), got is want, site=ci.site_of("_create_eam_potential"),
                found=got, expect=want, key="%s|owner|%s" % (rule, s))
         sp = pot.attrs.get("species") if isinstance(pot, InstV) else None
         chk.ob(rule, "EAMPotential(%s).species is %s" % (s, s), isinstance(sp, Const) and sp.v == s,
-               site=ci.lookup("_create_eam_potential").site(), found=sp, expect=s, key="%s|species|%s" % (rule, s))
+               site=ci.site_of("_create_eam_potential"), found=sp, expect=s, key="%s|species|%s" % (rule, s))
 
 
 def zero_fill(chk, P, rule):
@@ -200,7 +200,7 @@ def zero_fill(chk, P, rule):
     inner.items[Const("Al").key()] = (Const("Al"), W.param("declared_Fe_Al"))
     dens.items[Const("Fe").key()] = (Const("Fe"), inner)
     W.run_method(I, b, "_add_null_density_functions", [W.param("cp"), embed, dens])
-    site = ci.lookup("_add_null_density_functions").site()
+    site = ci.site_of("_add_null_density_functions")
     r = W.nsym("r")
     for a in ("Fe", "Al"):
         for bb in ("Fe", "Al"):
@@ -234,11 +234,11 @@ def zero_fill(chk, P, rule):
     for dct, name, declared in ((embed0, "embedding", "F_Al"), (dens0, "density", "rho_Al")):
         keep = dct.items.get(Const("Al").key())
         chk.ob(rule, "EAM %s of Al is kept" % name, keep is not None and keep[1].key() == W.param(declared).key(),
-               site=ci0.lookup("_add_null_functions").site(), found=keep, expect=declared, key="%s|eam-keep|%s" % (rule, name))
+               site=ci0.site_of("_add_null_functions"), found=keep, expect=declared, key="%s|eam-keep|%s" % (rule, name))
         z = dct.items.get(Const("Cu").key())
         val = I0.call(z[1], [r], {}) if z is not None else None
         chk.ob(rule, "EAM %s of the undeclared species Cu is the zero function" % name,
-               isinstance(val, Num) and val.const() == 0, site=ci0.lookup("_add_null_functions").site(), found=val, expect="0.0",
+               isinstance(val, Num) and val.const() == 0, site=ci0.site_of("_add_null_functions"), found=val, expect="0.0",
                key="%s|eam-zero|%s" % (rule, name))
 
 
